@@ -5,7 +5,10 @@ translation path (from the property's anchors); instance memo tables are checked
 in those modules."""
 from __future__ import annotations
 
-from .. import purity
+import json
+import os
+
+from .. import purity, structlint
 
 B = "hippolyzer/lib/base/"
 M = B + "message/"
@@ -42,3 +45,48 @@ def run_purity(ctx):
     repo = ctx.repo
     classes = sorted({ci.name for lst in repo.classes.values() for ci in lst if ci.module.rel in rels})
     purity.purity_obligations(ctx, f"{ctx.prop}.P1", rels, classes)
+
+
+# ---- declarative-integrity lints (rule id <prop>.P2): the property's anchor files, its purity scope and the repo
+# modules those files import directly (a changed declaration in a directly used helper module breaks the property
+# just as well as one in the anchored file)
+_PROPS = None
+
+
+def _anchor_files(prop: str):
+    global _PROPS
+    if _PROPS is None:
+        _PROPS = {}
+        path = os.path.join(os.path.dirname(os.path.dirname(os.path.dirname(os.path.abspath(__file__)))), "properties.jsonl")
+        with open(path) as f:
+            for line in f:
+                if line.strip():
+                    d = json.loads(line)
+                    _PROPS[d["id"]] = [x for x in d.get("anchors", {}).get("files", []) if x.endswith(".py")]
+    return _PROPS.get(prop, [])
+
+
+def struct_scope(repo, prop: str):
+    base = [r for r in _anchor_files(prop) if r in repo.modules]
+    scope = set(base) | {r for r in SCOPE.get(prop, []) if r in repo.modules}
+    for rel in base:
+        m = repo.modules[rel]
+        for tgt in list(m.imports.values()) + list(m.star_imports):
+            parts = tgt.split(".")
+            for k in range(len(parts), 0, -1):
+                m2 = repo.by_modname.get(".".join(parts[:k]))
+                if m2 is not None:
+                    scope.add(m2.rel)
+                    break
+    return sorted(scope), base
+
+
+def run_struct(ctx):
+    scope, base = struct_scope(ctx.repo, ctx.prop)
+    if not base:
+        from ..core import AnalysisError
+        raise AnalysisError(f"{ctx.prop}.P2: none of the property's anchor files is present in the tree")
+    rid = f"{ctx.prop}.P2"
+    structlint.struct_obligations(ctx, rid, scope)
+    for mod, node, key, msg in purity.memo_findings(ctx.repo, scope):
+        ctx.ob(rid, f"no cache of a mutable result: {key}", False, f"{mod.rel}:{getattr(node, 'lineno', 0)}", msg)
